@@ -197,6 +197,10 @@ func verifAdvance(d int64) {
 	verifNowNs = target
 }
 func verifDrain()             { time.Sleep(5 * time.Millisecond) }
+
+// verifAdvanceLazy advances the clock and fires due timers; the woken goroutines run late
+// (natively: whenever the Go scheduler gets to them).
+func verifAdvanceLazy(d int64) { verifAdvance(d) }
 func verifFireTimer() bool    { return false }
 func verifPendingTimers() int { return len(verifTimers) }
 
